@@ -146,6 +146,8 @@ def _run_task(spec, shard, opts):
     active = active_findings(H.prop)
     ex = Explorer(alphabet=H.alphabet, shard=shard, deadline=time.time() + H.timeout * opts.get("time_scale", 1.0),
                   max_steps=H.max_steps)
+    ex.xcap = opts.get("xsolver_samples", 0) if not shard or not any(shard) else 0
+    ex._xrng.seed(opts.get("seed", 0) * 7919 + len(H.name))
     res = dict(tags=collections.Counter(), violations=[], inconclusive=collections.Counter(), samples=[],
                crosschecked=0, mismatches=[], reached=0, nontrivial=0, assumed=collections.Counter())
     maxviol = opts.get("max_violations", 6)
@@ -228,6 +230,9 @@ def _run_task(spec, shard, opts):
                                        decisions=len(ex.log), holds=ok_con))
 
     stats = ex.run(path, on_path)
+    if ex.xsamples:
+        from . import xsolver
+        res["xsolver"] = xsolver.recheck([x for x in ex.xsamples if x])
     res["stats"] = {k: (round(v, 3) if isinstance(v, float) else v) for k, v in stats.items()}
     res["tags"] = dict(res["tags"])
     res["inconclusive"] = dict(res["inconclusive"])
@@ -277,7 +282,7 @@ def run_property(prop, harnesses, tier, seed, jobs=16, level="model_checking", e
             tasks.append((H.spec(), shard))
     import random
     random.Random(seed).shuffle(tasks)
-    opts = dict(time_scale=time_scale)
+    opts = dict(time_scale=time_scale, seed=seed, xsolver_samples=(4 if tier == "quick" else 20))
     results = []
     ctxm = mp.get_context("fork")
     with cf.ProcessPoolExecutor(max_workers=jobs, mp_context=ctxm) as pool:
@@ -290,6 +295,7 @@ def run_property(prop, harnesses, tier, seed, jobs=16, level="model_checking", e
     byname = {H.name: H for H in harnesses}
     agg = {}
     harness_errors = []
+    xs = collections.Counter()
     for r in results:
         H = make(tuple(r["spec"]))
         a = agg.setdefault(H.name, dict(paths=0, decisions=0, queries=0, solver_s=0.0, tags=collections.Counter(),
@@ -318,6 +324,11 @@ def run_property(prop, harnesses, tier, seed, jobs=16, level="model_checking", e
         a["nontrivial"] += r["nontrivial"]
         a["samples"].extend(r["samples"])
         a.setdefault("functions", set()).update(r["functions"])
+        if r.get("xsolver"):
+            for k in ("queries", "cvc5_agree", "cvc5_unknown", "z3_4_8_agree", "z3_4_8_unknown"):
+                xs[k] += r["xsolver"][k]
+            for dis in r["xsolver"]["disagreements"]:
+                harness_errors.append((H.name, "solvers disagree on a path query: %s" % json.dumps(dis)[:1200]))
     status = EXIT_OK
     lines = []
     confirmed = []
@@ -411,6 +422,8 @@ def run_property(prop, harnesses, tier, seed, jobs=16, level="model_checking", e
             stubs=sorted(set(s for h in harnesses for s in h.stubs)),
             known_findings_replayed=kf_replayed,
             solver="z3 " + _z3_version(),
+            cross_solver_recheck=dict(xs, note="seeded reservoir sample of path queries per obligation, re-decided as "
+                                               "SMT-LIB2 by cvc5 (wheel) and the system z3 4.8.12; a disagreement is exit 3"),
             model_selftest=dict(comparisons_against_cpython=selftest.get("comparisons", 0), ok=selftest["ok"],
                                 wall_s=selftest["wall_s"]),
             engine="symx (symbolic execution of /repo/pvl through an AST instrumenter; z3 decides every branch)",
